@@ -660,3 +660,7 @@ Definition m_parse (fuel : nat) (rule_name : name) (input : bytes) (u : ustate) 
 End Model.
 
 Arguments MOk {A}. Arguments MErr {A}. Arguments MPanic {A}. Arguments MFuel {A}.
+Arguments h_check {ustate}. Arguments h_check_char {ustate}. Arguments h_extern {ustate}.
+Arguments g_cache {ustate}. Arguments g_trace {ustate}. Arguments g_user {ustate}.
+Arguments g_evals {ustate}. Arguments g_fails {ustate}.
+Arguments ev_expr {ustate}. Arguments ev_rule {ustate}. Arguments ev_loop {ustate}. Arguments ev_grow {ustate}.
